@@ -83,11 +83,45 @@ func featureSequence(parent string, loc poly.Location) (s string, err error) {
 		got := seq.Features[0].GetSequence()
 		if i == 0 {
 			s = got
+			// the same record after an edit of its bases (same length, every letter replaced by its successor in
+			// ACGT, case kept): the feature now reports the bases of the record as it is - the first reading again,
+			// letter for letter through the same replacement
+			seq.Sequence = shiftLetters(parent)
+			if again := seq.Features[0].GetSequence(); len(again) != len(got) {
+				return again, fmt.Errorf("after the parent's bases were replaced the feature sequence has %d letters, before %d", len(again), len(got))
+			} else if again != featureOfShifted(parent, seq.Features[0]) {
+				return again, fmt.Errorf("after the parent's bases were replaced (%q -> %q) the same feature reports %q; a fresh record holding the new bases reports %q", clipSeq(parent), clipSeq(seq.Sequence), clipSeq(again), clipSeq(featureOfShifted(parent, seq.Features[0])))
+			}
 		} else if got != s {
 			return got, fmt.Errorf("on %s the feature sequence is %q, on %s %q", fr.what, got, frames[0].what, s)
 		}
 	}
 	return s, nil
+}
+
+// shiftLetters replaces A C G T (either case) by C G T A; other letters stay.
+func shiftLetters(p string) string {
+	b := []byte(p)
+	for i, c := range b {
+		if k := strings.IndexByte("ACGT", c&^0x20); k >= 0 {
+			b[i] = "CGTA"[k] | c&0x20
+		}
+	}
+	return string(b)
+}
+
+// featureOfShifted: what the feature's location gives on a fresh record holding the shifted bases.
+func featureOfShifted(parent string, f poly.Feature) string {
+	fresh := poly.Sequence{Sequence: shiftLetters(parent)}
+	fresh.AddFeature(&poly.Feature{Type: f.Type, SequenceLocation: f.SequenceLocation})
+	return fresh.Features[0].GetSequence()
+}
+
+func clipSeq(s string) string {
+	if len(s) > 80 {
+		return fmt.Sprintf("%s…(%d)", s[:80], len(s))
+	}
+	return s
 }
 
 // minimal record for the public route; the location is wrapped after commas like NCBI does
